@@ -25,7 +25,16 @@ mod shrink;
 static GLOBAL: allocmon::MonAlloc = allocmon::MonAlloc;
 
 fn main() {
-    run_main(real_main)
+    if cfg!(miri) {
+        return run_main(real_main);
+    }
+    // The engine runs on a thread with a 1 GiB (lazily committed) stack so
+    // that recursive decoders cannot overflow the harness's own stack on
+    // the inputs it executes in-process (<= 16 KiB). Cases that are *meant* to
+    // probe recursion depth run in children on a fresh 8 MiB stack, the size
+    // of a normal main thread (see child::Shared::run).
+    let h = std::thread::Builder::new().stack_size(1 << 30).spawn(|| run_main(real_main)).expect("spawn engine thread");
+    let _ = h.join();
 }
 
 fn real_main() {
@@ -34,6 +43,7 @@ fn real_main() {
         "c38" => c38::run(&args),
         "c34" => c34::run(&args),
         "noop" => {}
+        "bench" => c38::bench(),
         other => {
             eprintln!("unknown sub-command {:?}", other);
             std::process::exit(3);
